@@ -74,7 +74,11 @@ def reply(mid, ans, ev='m', k=0):
     # whatever the error-tag (RFC 6241 Appendix A) and error-type: an <rpc-error> of severity error is a refusal
     tag = ERROR_TAGS[k % len(ERROR_TAGS)]
     typ = ['protocol', 'application', 'rpc', 'transport'][(k // 3) % 4]
-    one = lambda sev: '<rpc-error><error-type>%s</error-type><error-tag>%s</error-tag><error-severity>%s</error-severity><error-message>%s</error-message></rpc-error>' % (typ, tag, sev, ev)
+    # RFC 6241 Appendix A: lock-denied carries the session-id of the lock holder in error-info - this session's own id (the stub session
+    # is session '1': the lock was taken earlier on the same session), 0 (not a NETCONF session), another session, or nothing
+    info = ['', '<error-info><session-id>1</session-id></error-info>', '<error-info><session-id>0</session-id></error-info>',
+            '<error-info><session-id>4711</session-id></error-info>'][(k * 3 + k // 8) % 4]      # every tag meets every holder
+    one = lambda sev: '<rpc-error><error-type>%s</error-type><error-tag>%s</error-tag><error-severity>%s</error-severity><error-message>%s</error-message>%s</rpc-error>' % (typ, tag, sev, ev, info)
     if ans == 'o':
         body = '<ok/>'
     else:
